@@ -1410,3 +1410,47 @@ Proof.
   replace ((0 <? ns) && (ns * w_nc w * 2 <=? 2 * w_n w * w_nc w)) with true; [reflexivity|].
   symmetry. apply andb_true_intro. split; [apply Z.ltb_lt; lia|apply Z.leb_le; nia].
 Qed.
+
+(* ---------------------------------------------------------------------- *)
+(* Part F: file names                                                      *)
+(* ---------------------------------------------------------------------- *)
+Definition nodot (l : list Z) : Prop := ~ In dot l.
+
+Lemma split_last_dot_nodot e : nodot e -> split_last_dot e = None.
+Proof.
+  induction e as [|c e IH]; intros H; [reflexivity|].
+  cbn. rewrite IH by (intros Hin; apply H; now right).
+  destruct (c =? dot) eqn:E; [|reflexivity].
+  apply Z.eqb_eq in E. exfalso. apply H. now left.
+Qed.
+
+Lemma split_last_dot_app stem e : nodot e ->
+  split_last_dot (stem ++ dot :: e) = Some (stem, e).
+Proof.
+  intros He. induction stem as [|c stem IH]; cbn.
+  - rewrite (split_last_dot_nodot e He). reflexivity.
+  - rewrite IH. reflexivity.
+Qed.
+
+(* a name with a proper suffix: stem ++ "." ++ e with stem and e non-empty, e without dots *)
+Lemma name_stem_app stem e : stem <> [] -> e <> [] -> nodot e ->
+  name_stem (stem ++ dot :: e) = stem.
+Proof.
+  intros Hs He Hn. unfold name_stem. rewrite (split_last_dot_app stem e Hn).
+  destruct stem; [congruence|]. destruct e; [congruence|]. reflexivity.
+Qed.
+
+Lemma with_suffix_app stem e e' : stem <> [] -> e <> [] -> nodot e ->
+  with_suffix (stem ++ dot :: e) e' = stem ++ dot :: e'.
+Proof. intros. unfold with_suffix. now rewrite name_stem_app. Qed.
+
+(* the names compress_file publishes depend on the stem only — whatever characters it contains *)
+Lemma published_names_spec stem e t1 t2 c h :
+  stem <> [] -> e <> [] -> nodot e -> t1 <> [] -> nodot t1 ->
+  published_names (stem ++ dot :: e) t1 t2 c h =
+    (stem ++ dot :: t1, stem ++ dot :: t2, stem ++ dot :: c, stem ++ dot :: h).
+Proof.
+  intros Hs He Hn Ht Hnt. unfold published_names.
+  rewrite !(with_suffix_app stem e) by assumption.
+  rewrite (with_suffix_app stem t1 c) by assumption. reflexivity.
+Qed.
